@@ -5,23 +5,24 @@
    harness replays against the real run_to_completion (drift) and judges with Props2.             *)
 EXTENDS ColangSM_I, Json, IOUtils
 
-CONSTANTS MaxHist, MaxPick
+CONSTANTS MaxHist, MaxPick, MaxTick
 VARIABLES S, hist,
+          T,        \* the twin: same events, but no time ever passes (nothing is discarded) - reference for C11 (AgeInvisible)
           mon       \* ghost: the action life-cycle monitor of C06 (L2), [m |-> action -> "started"|"stopped"|"finished", bad |-> what went wrong]
-vars == <<S, hist, mon>>
-SView == <<[S EXCEPT !.nev = 0], mon>>           \* VIEW: states that differ only in the history / the event counter are one state
+vars == <<S, hist, T, mon>>
+SView == <<[S EXCEPT !.nev = 0], [T EXCEPT !.nev = 0], mon>>           \* VIEW: states that differ only in the history / the event counter are one state
 Alphabet == MCP.alphabet           \* sequence of [name, args (seq of <<key, value>>)]
 
 (* ---- L2: one Start per action, Stop only for an action that was started and is neither stopped nor finished ---- *)
-MonOut(m0, T) ==           \* scan the outgoing events of the new state T
+MonOut(m0, N) ==           \* scan the outgoing events of the new state N
   LET RECURSIVE Go(_, _)
-      Go(m, i) == IF i > Len(T.out) \/ m.bad # "" THEN m
-                  ELSE LET o == T.out[i] IN
+      Go(m, i) == IF i > Len(N.out) \/ m.bad # "" THEN m
+                  ELSE LET o == N.out[i] IN
                        IF o.act = 0 THEN Go(m, i + 1)
-                       ELSE IF o.name = "Start" \o T.actions[o.act].name
+                       ELSE IF o.name = "Start" \o N.actions[o.act].name
                          THEN (IF o.act \in DOMAIN m.m THEN [m EXCEPT !.bad = "second Start for one action"]
                                ELSE Go([m EXCEPT !.m = (o.act :> "started") @@ @], i + 1))
-                       ELSE IF o.name = "Stop" \o T.actions[o.act].name
+                       ELSE IF o.name = "Stop" \o N.actions[o.act].name
                          THEN (IF o.act \notin DOMAIN m.m THEN [m EXCEPT !.bad = "Stop for an action that was never started"]
                                ELSE IF m.m[o.act] = "stopped" THEN [m EXCEPT !.bad = "second Stop for one action"]
                                ELSE IF m.m[o.act] = "finished" THEN [m EXCEPT !.bad = "Stop after the action finished"]
@@ -33,20 +34,32 @@ MonIn(m0, w, a) ==         \* an external <Action>Finished event
 MonEmpty == [m |-> <<>>, bad |-> ""]
 
 Init == /\ S = Run(Init0, StartMain, 0)
+        /\ T = Run(Init0, StartMain, 0)
         /\ hist = <<>>
         /\ mon = MonOut(MonEmpty, Run(Init0, StartMain, 0))
 (* external events: the program's alphabet, and Started / Finished of every action that was started
    (early, late, twice: also for actions that already finished or were stopped) *)
-StartedActions == {a \in 1..Len(S.actions) : S.actions[a].status \in {"STARTING", "STARTED", "STOPPING", "FINISHED"}}
-Step == /\ Len(hist) < MaxHist
-        /\ \/ \E i \in 1..Len(Alphabet) : \E pick \in 0..MaxPick :
-                 /\ S' = Run(S, ExtEvent(Alphabet[i].name, Alphabet[i].args), pick)
-                 /\ hist' = Append(hist, <<i, pick, 0>>)
-                 /\ mon' = MonOut(mon, S')
-           \/ \E a \in StartedActions : \E w \in {1, 2} :
-                 /\ S' = Run(S, ActionExtEvent(S, a, IF w = 1 THEN "Started" ELSE "Finished"), 0)
-                 /\ hist' = Append(hist, <<-w, 0, a>>)
-                 /\ mon' = MonOut(MonIn(mon, w, a), S')
+StartedActions == {a \in 1..Len(T.actions) : T.actions[a].status \in {"STARTING", "STARTED", "STOPPING", "FINISHED"}}
+NEvents == Cardinality({i \in 1..Len(hist) : hist[i][1] # 0})
+(* the external event for action a as the environment sends it: name and uid only (the same for S and T) *)
+ActEv(a, w) == [Ev(T.actions[a].name \o (IF w = 1 THEN "Started" ELSE "Finished"), << <<"action_uid", <<"act", a>>>> >>, <<>>, "A", 0) EXCEPT !.act = a]
+Step == \/ /\ NEvents < MaxHist
+           /\ \/ \E i \in 1..Len(Alphabet) : \E pick \in 0..MaxPick :
+                    /\ S' = Run(S, ExtEvent(Alphabet[i].name, Alphabet[i].args), pick)
+                    /\ T' = Run(T, ExtEvent(Alphabet[i].name, Alphabet[i].args), pick)
+                    /\ hist' = Append(hist, <<i, pick, 0>>)
+                    /\ mon' = MonOut(mon, S')
+              \/ \E a \in StartedActions : \E w \in {1, 2} :
+                    /\ S' = Run(S, ActEv(a, w), 0)
+                    /\ T' = Run(T, ActEv(a, w), 0)
+                    /\ hist' = Append(hist, <<-w, 0, a>>)
+                    /\ mon' = MonOut(MonIn(mon, w, a), S')
+        \/ (* more than 5 s pass before the next event (only S ages) *)
+           /\ MaxTick > 0 /\ NEvents < MaxHist /\ (IF Len(hist) = 0 THEN TRUE ELSE hist[Len(hist)][1] # 0)
+           /\ Cardinality({i \in 1..Len(hist) : hist[i][1] = 0}) < MaxTick
+           /\ \E k \in 1..Len(S.flows) : DoneF(S.flows[k]) /\ ~S.flows[k].old       \* (otherwise nothing changes)
+           /\ S' = Tick(S) /\ UNCHANGED <<T, mon>>
+           /\ hist' = Append(hist, <<0, 0, 0>>)
 Spec == Init /\ [][Step]_vars
 
 (* projection with the same shape as harness/colang2.project_state (what Props2 and the drift check need) *)
@@ -87,9 +100,9 @@ DoneNoHeads == \A k \in 1..Len(S.flows) : S.flows[k].status \in {"STOPPED", "FIN
 RangeS(q) == {q[i] : i \in 1..Len(q)}
 RECURSIVE EffParentS(_, _), ChainS(_, _)
 EffParentS(k, fuel) == LET f == S.flows[k] IN
-  IF f.parent = 0 \/ fuel = 0 THEN 0 ELSE IF S.flows[f.parent].fid # f.fid THEN f.parent ELSE EffParentS(f.parent, fuel - 1)
+  IF f.parent = 0 \/ fuel = 0 \/ S.flows[f.parent].status = "GONE" THEN 0 ELSE IF S.flows[f.parent].fid # f.fid THEN f.parent ELSE EffParentS(f.parent, fuel - 1)
 ChainS(k, fuel) == LET f == S.flows[k] IN
-  IF f.parent = 0 \/ fuel = 0 THEN {k} ELSE IF S.flows[f.parent].fid # f.fid THEN {k} ELSE {k} \cup ChainS(f.parent, fuel - 1)
+  IF f.parent = 0 \/ fuel = 0 \/ S.flows[f.parent].status = "GONE" THEN {k} ELSE IF S.flows[f.parent].fid # f.fid THEN {k} ELSE {k} \cup ChainS(f.parent, fuel - 1)
 KeptS(k) == \/ k = 1
             \/ LET ep == EffParentS(k, 50) IN ep # 0 /\ Listening(S.flows[ep])
             \/ \E j \in 1..Len(S.flows) : Listening(S.flows[j]) /\ j \notin ChainS(k, 50) /\ RangeS(S.flows[j].children) \cap ChainS(k, 50) # {}
@@ -123,6 +136,28 @@ L2cS == [][L2cStep]_vars
    number of internal events processed per call is linear in program size x live instances (Isolation!StepBound) *)
 NoFuelOut == ~S.fuelout
 TotalElements == LET RECURSIVE Sum(_) Sum(i) == IF i > Len(MCP.flows) THEN 0 ELSE MCP.flows[i].n + Sum(i + 1) IN Sum(1)
-LiveInstances(T) == Cardinality({k \in 1..Len(T.flows) : Listening(T.flows[k])})
+LiveInstances(N) == Cardinality({k \in 1..Len(N.flows) : Listening(N.flows[k])})
 EventBound == [][S'.nev <= 40 + 6 * TotalElements + 4 * TotalElements * (LiveInstances(S) + LiveInstances(S'))]_vars
+
+(* ------------------------------------------------------------------ C11 at specification level *)
+(* ageing is invisible: whatever instances were discarded in S, the outgoing events of every step and everything the
+   interpreter still holds about instances that are not finished / failed are what they are in the twin T *)
+LiveKids(X, q) == SelectSeq(q, LAMBDA c : ~DoneF(T.flows[c]))
+SameFlow(k) == LET f == S.flows[k]  g == T.flows[k] IN
+  /\ f.status = g.status /\ f.heads = g.heads /\ f.ctx = g.ctx /\ f.actions = g.actions /\ f.activated = g.activated
+  /\ f.loop = g.loop /\ f.scopes = g.scopes /\ f.forks = g.forks /\ f.newinst = g.newinst
+  /\ LiveKids(S, f.children) = LiveKids(T, g.children)
+AgeInvisible ==
+  /\ S.out = T.out
+  /\ Len(S.flows) = Len(T.flows)
+  /\ \A k \in 1..Len(T.flows) : ~DoneF(T.flows[k]) => SameFlow(k)
+  /\ S.index = T.index
+  /\ Len(S.actions) = Len(T.actions)
+  /\ \A a \in 1..Len(T.actions) : (\E k \in 1..Len(T.flows) : ~DoneF(T.flows[k]) /\ a \in RangeS(T.flows[k].actions)) => S.actions[a] = T.actions[a]
+(* what the unguarded dictionary look-ups of the code need (a discarded instance / action would be a KeyError): an
+   activated instance still finds its parent, a listening flow still finds the actions recorded in its scopes *)
+NoDangling == \A k \in 1..Len(S.flows) :
+   (S.flows[k].status # "GONE" /\ S.flows[k].activated > 0 /\ S.flows[k].parent # 0) => S.flows[S.flows[k].parent].status # "GONE"
+ScopeActionsExist == \A k \in 1..Len(S.flows) : Listening(S.flows[k]) =>
+   \A q \in 1..Len(S.flows[k].scopes) : \A a \in RangeS(S.flows[k].scopes[q][3]) : S.actions[a].status # "DELETED"
 =============================================================================
